@@ -70,11 +70,30 @@ def _interp_name(f):
     return a[1]
 
 
-def _call(s, it, env, what):
+class _Subst(ast.NodeTransformer):
+    def __init__(self, alias):
+        self.alias = alias
+
+    def visit_Name(self, node):
+        return self.alias.get(node.id, node)
+
+
+def _alias(s, it, env, alias):
+    """`name = <it>.renderer` / `name = <a source of an argument>`: a local that only names something -> recorded, True"""
+    if not (isinstance(s, ast.Assign) and len(s.targets) == 1 and isinstance(s.targets[0], ast.Name)):
+        return False
+    v = _Subst(alias).visit(s.value)
+    if _u(v) == f"{it}.renderer" or _u(v) in env:
+        alias[s.targets[0].id] = v
+        return True
+    return False
+
+
+def _call(s, it, env, what, alias=None):
     """a statement `<it>.renderer.m(args)` -> Coq rcall term"""
     if not (isinstance(s, ast.Expr) and isinstance(s.value, ast.Call)):
         return None
-    c = s.value
+    c = _Subst(alias or {}).visit(s.value)
     fn = _u(c.func)
     if not fn.startswith(f"{it}.renderer."):
         return None
@@ -98,8 +117,11 @@ def _straight(f, env, what):
     it = _interp_name(f)
     calls = []
     body = [s for s in f.body if not (isinstance(s, ast.Expr) and isinstance(s.value, ast.Constant))]
+    alias = {}
     for k, s in enumerate(body):
-        c = _call(s, it, env, what)
+        if _alias(s, it, env, alias):
+            continue
+        c = _call(s, it, env, what, alias)
         if c is not None:
             calls.append(c)
             continue
